@@ -326,7 +326,10 @@ theorem frameInto_ki (cfg : Cfg) (t : TCfg) (r : R) (buf : Bytes) (hr : KI r) : 
         · exact ki_of_eq (by assumption) hk2
 
 theorem nextFrameBuf_ki (cfg : Cfg) (t : TCfg) (r : R) (buf : Bytes) (hr : KI r) : KI (nextFrameBuf cfg t r buf).1 := by
-  unfold nextFrameBuf
+  by_cases hc : r.sub.cur.isSome = true
+  · rw [nextFrameBuf_some cfg t r buf hc]; exact frameInto_ki cfg t r buf hr
+  rw [nextFrameBuf_eq, if_neg hc]
+  unfold nextFrameBuf0
   split
   · exact hr
   · simp only
@@ -567,7 +570,10 @@ theorem frameInto_agree (r : R) (hr : KI r) (buf : Bytes) : frameInto cfg t' r b
   simp only [frameBody_agree h cfg r hr]
 
 theorem nextFrameBuf_agree (r : R) (hr : KI r) (buf : Bytes) : nextFrameBuf cfg t' r buf = nextFrameBuf cfg t r buf := by
-  unfold nextFrameBuf
+  by_cases hc : r.sub.cur.isSome = true
+  · rw [nextFrameBuf_some cfg t' r buf hc, nextFrameBuf_some cfg t r buf hc]; exact frameInto_agree h cfg r hr buf
+  rw [nextFrameBuf_eq, nextFrameBuf_eq, if_neg hc, if_neg hc]
+  unfold nextFrameBuf0
   split
   · rfl
   · simp only
